@@ -106,6 +106,9 @@ class StopWorld(World):
             sysd["lo"], sysd["hi"] = -w, round(w * rng.choice([1, 2]), 3)
         sysd["rng_seed"] = rng.randrange(2 ** 31)
         sysd["show_pbar"] = rng.random() < 0.7
+        sysd["leave_pbar"] = rng.random() < 0.7
+        sysd["record_time"] = rng.random() < 0.7
+        sysd["norm_func"] = rng.random() < 0.3
         sysd["interfere"] = rng.random() < 0.2
         sysd["iterprox"] = rng.random() < 0.25
         if kind in ("power", "maxeig"):
@@ -290,12 +293,14 @@ class StopWorld(World):
                 else:
                     def Aop(v):
                         return Amat @ v
-                S.alg = A_.PowerMethod(Aop, x, max_iter=mi)
+                nf = (lambda v: float(np.sqrt(np.real(np.vdot(v, v))))) if sysd.get("norm_func") else None
+                S.alg = A_.PowerMethod(Aop, x, norm_func=nf, max_iter=mi)
                 S.site = "PowerMethod"
                 S.solution = lambda: [S.alg.x, np.float64(S.alg.max_eig)]
             else:
                 Aop = sp.linop.MatMul([n, 1], Amat)
-                S.app = sp.app.MaxEig(Aop, dtype=Amat.dtype, max_iter=mi, show_pbar=sysd["show_pbar"])
+                S.app = sp.app.MaxEig(Aop, dtype=Amat.dtype, max_iter=mi, show_pbar=sysd["show_pbar"],
+                                      leave_pbar=sysd.get("leave_pbar", True))
                 S.alg = S.app.alg
                 S.site = "MaxEig"
                 S.solution = lambda: [S.alg.x, np.float64(S.alg.max_eig)]
@@ -826,7 +831,8 @@ class StopWorld(World):
                     injected = None
                     if S.app is None:
                         import sigpy as sp
-                        S.app = sp.app.App(alg, show_pbar=sysd["show_pbar"])
+                        S.app = sp.app.App(alg, show_pbar=sysd["show_pbar"], leave_pbar=sysd.get("leave_pbar", True),
+                                           record_time=sysd.get("record_time", True))
                     it0 = alg.iter
                     counted = {"n": 0}
                     orig_update = alg.update
